@@ -1,6 +1,7 @@
-(* C02 - ForceFlush and Shutdown are complete, final (and always return: evidenced by the scheduled runs, not a theorem).
+(* C02 - ForceFlush and Shutdown are complete, final, and return (batch processors: under every interleaving, given only that
+   the worker keeps being scheduled - Batch/Fair.v; periodic reader and providers: evidenced by the scheduled runs).
    Property theorems only; proofs are in Batch/Proofs*.v and Batch/Theorems.v. *)
-From V Require Import Batch.Model Batch.ProofsA Batch.ProofsB Batch.Theorems Batch.Compose Batch.ComposeProofs Batch.Periodic Batch.PeriodicProofs Batch.Progress.
+From V Require Import Batch.Model Batch.ProofsA Batch.ProofsB Batch.Theorems Batch.Compose Batch.ComposeProofs Batch.Periodic Batch.PeriodicProofs Batch.Progress Batch.Fair.
 From Coq Require Import List Arith.
 Import ListNotations.
 
@@ -45,7 +46,7 @@ Print Assumptions c02_shutdown_is_final.
 
 (* termination, logical core: the worker is never blocked by another thread, and running alone (application threads quiescent,
    exporter calls return) it drains the queue and publishes every pending ticket / exits within a bound computed from the state.
-   Termination under arbitrary fair scheduling with perpetual producers is NOT claimed as a theorem (evidenced by the scheduled runs). *)
+   (The general statement, with the application threads running, follows below.) *)
 Theorem c02_worker_never_stuck : forall s, Inv s -> 0 < Bsz s -> wp s <> WDone -> exists s', wstep s = Some s'.
 Proof. exact worker_never_stuck. Qed.
 Print Assumptions c02_worker_never_stuck.
@@ -61,6 +62,25 @@ Theorem c02_worker_solo_shutdown_progress : forall s, Inv s -> 0 < Bsz s -> is_s
   exists n s', witer n s = Some s' /\ wp s' = WDone /\ enq s' = enq s /\ deq s' = length (enq s) /\ pending s' = pending s.
 Proof. exact worker_solo_shutdown_progress. Qed.
 Print Assumptions c02_worker_solo_shutdown_progress.
+
+(* termination under EVERY interleaving (producers, flushers and shutdown keep running), assuming only that the worker keeps
+   taking steps: [wprog tr] counts the worker's events in the continuation tr other than wait-predicate evaluations. *)
+Theorem c02_flush_returns_under_fair_worker : forall q b s tr s' t,
+  reachable q b s -> t <= pending s -> run s tr = Some s' -> 16 + 6 * q <= wprog tr ->
+  t <= notified s' \/ is_shut s' = true.
+Proof. exact flush_returns_under_fair_worker. Qed.
+Print Assumptions c02_flush_returns_under_fair_worker.
+
+Theorem c02_shutdown_worker_exits_under_fair_worker : forall q b s tr s' ts,
+  reachable q b s -> is_shut s = true -> (forall u, late s u = true -> In u ts) -> run s tr = Some s' ->
+  16 * (length (queue s) + (pending s - notified s)) + 13 + 32 * length ts <= wprog tr -> wp s' = WDone.
+Proof. exact shutdown_worker_exits_bound. Qed.
+Print Assumptions c02_shutdown_worker_exits_under_fair_worker.
+
+Theorem c02_late_arrivals_bounded : forall ts tr s s',
+  is_shut s = true -> (forall u, late s u = true -> In u ts) -> run s tr = Some s' -> adds tr <= length (filter (late s) ts).
+Proof. exact late_adds_bounded. Qed.
+Print Assumptions c02_late_arrivals_bounded.
 
 (* provider level (TracerProvider / LoggerProvider / MeterProvider over any children, any call sequence) *)
 Theorem c02_compose_meets_spec : forall k cs ops, spec_compose k (length cs) (model k cs ops) = [].
